@@ -229,6 +229,12 @@ pub fn get_str<'a>(v: &'a Value, k: &str) -> &'a str {
     v.get(k).and_then(|x| x.as_str()).unwrap_or("")
 }
 
+/// One grapheme cluster of 261 bytes (e + 130 combining acute accents): lengths that do not fit into a byte.
+pub fn giant_cluster() -> &'static str {
+    static G: std::sync::OnceLock<String> = std::sync::OnceLock::new();
+    G.get_or_init(|| format!("e{}", "\u{0301}".repeat(130))).as_str()
+}
+
 /// Concretisation tables: slot number (1-based) -> concrete string, per alphabet.
 /// Slot 1 is always a whitespace symbol, slot 2.. are non-whitespace.
 pub fn alphabet(name: &str) -> Vec<&'static str> {
